@@ -17,6 +17,8 @@ CONSTANTS
   BitmapHonoursShallow = TRUE
   CgOctopusOk = FALSE
   MaxParents = 3
+  GraftsBeforeGraph = TRUE
+  IdxLargeFrom31 = TRUE
   CgHonoursShallow = TRUE
   Focus = "octo"
 INVARIANT TypeOK
